@@ -13,12 +13,18 @@
 //!   opt  — `&vec.opt()` (`OptIter`, boxed trusted iterator, items `Option<E::Inner>`)
 //!   optt — `vec.opt().titer()` (the double-ended form, needed by `vlast` / `last`)
 //!
-//! Families: `fam_valid_cmp` (+ `fam_valid_last`), `fam_valid_sum`, `fam_plain`, `fam_plain_cmp_f64`,
-//! `fam_bool*`, `fam_masked`, `perm_*` (relational: symbolic transposition), `fold_protocol*`
-//! (recording closures; Engine M's loop summaries rest on them, DESIGN 1.3).
+//! Families: `fam_valid_cmp` (+ `fam_valid_last`), `fam_valid_sum`, `fam_plain_cmp`, `fam_plain_sum`,
+//! `fam_plain_cmp_f64`, `fam_bool_*`, `fam_masked`, `perm_*` (relational: symbolic transposition),
+//! `fold_protocol` / `fold2_protocol` (recording closures; Engine M's loop summaries rest on them,
+//! DESIGN 1.3; harness names `c11_fold_protocol_*`).
 //!
-//! Isolated (suspected defect of the pinned tree, see the report): `plain_extrema_nan` — the
-//! null-unaware `min/max/argmin/argmax` on a float series that contains NaN.
+//! Harness size: CBMC time grows much faster than linearly with the amount of instantiated code in
+//! one harness (three lengths in one harness cost 5-9x one length), so there is one length per
+//! harness beyond the cheap families; tools/gen_c11.py assigns lengths to tiers.
+//!
+//! Isolated (suspected defect of the pinned tree, see `plain_extrema_nan`): `c11_plain_nan_{min,max,
+//! argmin,argmax}_*` — the null-unaware `min / max / argmin / argmax` on a float series whose FIRST
+//! element is NaN return NaN / position 0, while a NaN in any later position is skipped.
 use tea_agg::AggValidExt;
 use tea_core::prelude::*;
 
